@@ -64,6 +64,32 @@ def field_stores(facts):
     return out
 
 
+def deref_stores(fn, pv, self_adt=None):
+    """Stores through a `&mut` local (`*r = v`), resolved with the given provenance (typically of one context) to the field the
+    reference points at: `let r = if c { &mut self.a } else { &mut self.b }; *r = v` is a store to `a` under c and to `b` otherwise.
+    Yields the same records as field_stores (kind 'assign')."""
+    out = []
+    for bi, bb in enumerate(fn.blocks):
+        if bb["c"]:
+            continue
+        if pv.flow is not None and pv.flow.state_in[bi] is None:
+            continue
+        for si, st in enumerate(bb["s"]):
+            if st["k"] != "=" or st["p"].get("p") != ["*"]:
+                continue
+            l = st["p"]["l"]
+            if l <= fn.argc or not fn.locals[l]["t"].startswith("&mut"):
+                continue
+            t = pv.local(l, bi, si)
+            targets = t[1] if t[0] == "phi" else [t]
+            for x in targets:
+                while x[0] in ("cast", "q"):
+                    x = x[1]
+                if x[0] == "field":
+                    out.append(dict(fn=fn, block=bi, stmt=si, line=st["l"], adt=self_adt, field=x[2], kind="assign", last=True, rv=st["rv"], via="deref"))
+    return out
+
+
 def writers_of(facts, adt, field, kinds=("assign", "mutref")):
     return [w for w in field_stores(facts) if w["adt"] == adt and w["field"] == field and w["kind"] in kinds]
 
